@@ -357,6 +357,56 @@ def r8(ctx, rep):
     rep.check(n_sites >= 1, "discard:sites", f"expected the reviewed `.is_ok()` of resolve_ident, found {n_sites} discarding adapters on the compiler's error type")
 
 
+def r9(ctx, rep):
+    import guards
+    rep.rule("C10.R9", "every scope change of the resolver (shadow / stack_push of a namespace) is undone on every non-error path of the same function", floor=6)
+    syn = ctx.syn
+    pairs = {"shadow": "unshadow", "stack_push": "stack_pop"}
+    n_open = 0
+    for f in syn.fns:
+        if f["crate"] != "prqlc" or "/semantic/" not in f["file"] or "body" not in f or f["file"].endswith("module.rs"):
+            continue
+        par = None
+        calls_ = [n for n in walk(f["body"]) if n.get("k") == "mcall" and n["m"] in list(pairs) + list(pairs.values()) and n["a"]]
+        if not any(c["m"] in pairs for c in calls_):
+            continue
+        par = guards.parents(f["body"])
+
+        def conds_of(n):
+            out, cur = [], n
+            while id(cur) in par:
+                p_ = par[id(cur)]
+                if p_.get("k") == "if" and (p_.get("t") is cur or guards._contains(p_.get("t"), cur)):
+                    out.append(show(p_["c"], maxdepth=8))
+                if p_.get("k") == "match":
+                    for a in p_["arms"]:
+                        if a is cur or a.get("body") is cur or guards._contains(a["body"], cur):
+                            out.append("arm " + show(a["pat"], maxdepth=6))
+                cur = p_
+            return out
+        rets = [n for n in walk(f["body"]) if n.get("k") == "return" and not show(n.get("e"), maxdepth=3).startswith("Err(")]
+        for o in calls_:
+            if o["m"] not in pairs:
+                continue
+            n_open += 1
+            ns = show(o["a"][0])
+            closers = [c for c in calls_ if c["m"] == pairs[o["m"]] and show(c["a"][0]) == ns and (c["l"], c.get("c", 0)) > (o["l"], o.get("c", 0)) and conds_of(c) == conds_of(o)]
+            key = f"scope:{f['path']}:{o['m']}({ns})"
+            if not closers:
+                rep.bad(key, f"`{o['m']}({ns})` in {f['name']} has no matching `{pairs[o['m']]}({ns})` later under the same conditions: the namespace stays changed for everything resolved afterwards "
+                        "(names of an inner scope resolve where they should be unknown)", file=f["file"], line=o["l"], fn=f["path"])
+                continue
+            c = closers[0]
+            between = [r.get("l") for r in rets if o["l"] < r["l"] < c["l"]]
+            reviewed = {("fold_function", "stack_push")}   # C10.R7 reviews the partial-application exit of fold_function
+            if between and (f["name"], o["m"]) not in reviewed:
+                rep.bad(key, f"between `{o['m']}({ns})` (line {o['l']}) and `{pairs[o['m']]}({ns})` (line {c['l']}) the function returns successfully at line(s) {between} without undoing the scope change",
+                        file=f["file"], line=between[0], fn=f["path"])
+            else:
+                rep.ok(key)
+    rep.check(n_open >= 6, "openers", f"expected >= 6 scope-changing calls in the resolver, found {n_open}")
+
+
 def run(ctx, rep):
-    for r in (r1, r2, r3, r4, r5, r6, r7, r8):
+    for r in (r1, r2, r3, r4, r5, r6, r7, r8, r9):
         rep.guard(r, ctx)
